@@ -476,6 +476,13 @@ def _pt(s):
     return (iv(a), iv(b))
 
 
+def same_elt(p, got, want_pt):
+    """got (canonical string) denotes the group element want_pt (coordinates compared mod p)"""
+    if got.startswith("!"):
+        return False
+    return cpt(ref_red(p, _pt(got))) == cpt(want_pt)
+
+
 def chk_toy_group(inp):
     """group laws around one point P of a toy curve: closure, commutativity, identity, inverse, associativity with
     every Q, R; implementation vs independent chord-and-tangent reference"""
@@ -634,13 +641,16 @@ def prod_judge(inp, res):
         P, Q = inp["P"], inp["Q"]
         P = tuple(P) if P else None
         Q = tuple(Q) if Q else None
-        want = cpt(ref_add(p, a, P, Q))
-        if r[0] != want or r[1] != want or r[2] != want:
-            return {"kind": "add-vs-reference", "got": r[:3], "want": want}
+        want_pt = ref_add(p, a, P, Q)
+        want = cpt(want_pt)
+        exact = P is not None and Q is not None      # with an infinite operand the other one is returned as given
+        for got in r[:3]:
+            if (got != want) if exact else (not same_elt(p, got, want_pt)):
+                return {"kind": "add-vs-reference", "got": r[:3], "want": want}
         # -P keeps the x given and returns p - y: equal to the group inverse as an element (coordinates mod p)
         if r[3].startswith("!") or cpt(ref_red(p, _pt(r[3]))) != cpt(ref_neg(p, P)):
             return {"kind": "negation", "got": r[3]}
-        if r[4] != cpt(ref_add(p, a, P, ref_neg(p, Q))):
+        if not same_elt(p, r[4], ref_add(p, a, P, ref_neg(p, Q))):
             return {"kind": "subtraction", "got": r[4]}
         if not ref_on(p, a, b, _pt(r[0])):
             return {"kind": "closure"}
@@ -653,14 +663,14 @@ def prod_judge(inp, res):
         P, k = inp["P"], inp["k"]
         P = tuple(P) if P else None
         want = ref_mul(p, a, P, k)
-        wneg = cpt(ref_neg(p, want))
-        want = cpt(want)
-        if r[0] != want or r[1] != want or r[2] != want:
-            return {"kind": "scalar-vs-reference", "got": r[:3], "want": want}
-        if r[3] != want or r[5] != want:
-            return {"kind": "scalar-order-reduction", "got": [r[3], r[5]], "want": want}
-        if r[4] != wneg:
-            return {"kind": "scalar-negative", "got": r[4], "want": wneg}
+        wneg = ref_neg(p, want)
+        # e mod n = 1 returns P as given (possibly unreduced): compare as group elements
+        if not all(same_elt(p, g, want) for g in (r[0], r[1], r[2])):
+            return {"kind": "scalar-vs-reference", "got": r[:3], "want": cpt(want)}
+        if not same_elt(p, r[3], want) or not same_elt(p, r[5], want):
+            return {"kind": "scalar-order-reduction", "got": [r[3], r[5]], "want": cpt(want)}
+        if not same_elt(p, r[4], wneg):
+            return {"kind": "scalar-negative", "got": r[4], "want": cpt(wneg)}
         return None
     if kind == "gen":
         k = inp["k"]
